@@ -180,6 +180,17 @@ def step (kind : Nat → W.Drv.Cmd) (inCap outCap : Nat) (s : St) : Th → Optio
                                    k := { s.k with evt := s.k.evt || (s.core.outb.length == outCap) } }
     else none
 
+/-- `E` inside `G`: the component read off the protocol state, put into the state -/
+def emb (s : E.St) : St := { k := s.k, core := coreOf s.k, owed := s.owed }
+
+def ofTh : K.Th → Th
+  | .app j => .app j | .async => .async | .eng => .eng
+
+/-- `NotifyAllSubscribers` of every non-empty queue from number `i` on (what one pass of `K`'s tick does) -/
+def notifyNE : Nat → List K.Qu → List K.App → List K.App
+  | _, [], apps => apps
+  | i, q :: qs, apps => notifyNE (i + 1) qs (if q.cmds = [] then apps else K.notifyAll i apps)
+
 def init (scripts : List (List K.Op)) (nq : Nat) : St :=
   { k := K.init scripts nq, core := { d := { qs := List.replicate nq {}, cyc := none } } }
 
